@@ -250,6 +250,30 @@ def depth(x, p):
                 info='token %d: %d spaces, depth %d' % (j, n, depths[i]))
 
 
+def widths(x, p):
+    """One Lua object formatted twice with two indent widths (a user trying
+    several --indentwidth values from a script): each output is what a
+    freshly loaded program gives for that width."""
+    src = LINES.encode('latin-1')
+    wa = x.conc(x.int('first_width', 0, 8))
+    wb = x.conc(x.int('second_width', 0, 8))
+    prog = lua.Lua.from_lines([src], version=8)
+    out_a = b''.join(prog.to_lines(writer_cls=lua.LuaFormatterWriter,
+                                   writer_args={'indentwidth': wa}))
+    out_b = b''.join(prog.to_lines(writer_cls=lua.LuaFormatterWriter,
+                                   writer_args={'indentwidth': wb}))
+    fresh = lua.Lua.from_lines([src], version=8)
+    exp_b = b''.join(fresh.to_lines(writer_cls=lua.LuaFormatterWriter,
+                                    writer_args={'indentwidth': wb}))
+    x.out('nb', len(out_b))
+    x.check('the second formatting uses its own indent width', out_b == exp_b)
+    # (first line of the do-block body: "x=1" at depth 1)
+    lines = out_b.split(b'\n')
+    body = [l for l in lines if l.strip() == b'x=1']
+    x.check('a line at depth 1 is indented by the second width',
+            len(body) == 1 and body[0] == b' ' * wb + b'x=1')
+
+
 EVERY = ('do\nlocal x=1\nwhile x do\nx=f(a,{b,[c]=d},t[i])\nend\nrepeat\n'
          'x=x+1\nuntil x\nif a then\nb()\nelseif c then\nd()\nelse\ne()\n'
          'end\nfor i=1,2 do\nbreak\nend\nfor k,v in pairs(t) do\ngoto l\n'
@@ -276,3 +300,4 @@ HARNESSES.append(
 # the command line wiring of --indentwidth (shared with C09)
 from props import C09 as _C09
 HARNESSES.append(Harness('cli', _C09.cli, quick=[Q]))
+HARNESSES.append(Harness('widths', widths, quick=[Q]))
